@@ -34,3 +34,5 @@ CLAIMS['C10'] = ('other', 'proved (VCs from the real AST, heap-dictionary model)
                  'bounded: tables agree with a scan after every call of seeded histories under both policies (incl. clone, parse, policy switches)', _MIX + '; ' + _BN, _MT, 'DESIGN.md 0.1, 6/C10')
 CLAIMS['C07'] = ('other', 'proved: Wire / InnerPin / OuterPin / Port / Cable / Instance .clone return a new, free-standing object of the same class with its own new pins / wires / outer pins, faithful scalar attributes, data and reference, never raise, leave every existing object field-for-field as it was (Instance.clone joins its definition\'s reference set, as documented) and preserve Inv, for all heaps satisfying Inv; '
                  'bounded: netlist / library / definition clones (and the element clones again) against canon equality, identity-disjointness, pointer closure, snapshots and edit independence over seeded designs', _MIX + '; ' + _BN, _MT, 'DESIGN.md 0.1, 6/C07')
+CLAIMS['C11'] = ('other', 'proved: HRef.is_valid returns exactly whether the reference is a path of the current netlist (root = top instance of the netlist holding its definition, each further element inside the definition referenced by the instance before it), never raises, writes nothing, for all heaps satisfying Inv; '
+                 'bounded: the five get_h* enumerations (single and mixed roots), canonicity, is_unique, validity after edit sequences, over seeded designs', _MIX + '; ' + _BN, _MT, 'DESIGN.md 0.1, 6/C11')
